@@ -140,7 +140,7 @@ func verifC10_cancel() {
 	vInstallRand()
 	t := vNewTransport(nil)
 	t.endMode = vEndBlock
-	which := vChoose("call", 6)
+	which := vChoose("call", 8)
 	if which == 1 || which == 2 {
 		t.writeBlock = true
 	}
@@ -155,6 +155,22 @@ func verifC10_cancel() {
 		t.writeBlock = true
 		vReach("C10.cancel.blocked-pong")
 	}
+	if which == 6 || which == 7 {
+		// a read that has to send a Close frame - the 1002 for a protocol violation of the peer (6), the echo of the
+		// peer's Close frame (7) - while the peer does not read: the Close frame's write blocks inside the read call
+		p := vFrame{fin: true, opcode: 2, rsv2: true, masked: !client, payload: vBytes("m", 1)}
+		if which == 7 {
+			p = vFrame{fin: true, opcode: 8, masked: !client, payload: []byte{0x03, 0xe8}}
+		}
+		if p.masked {
+			copy(p.key[:], vBytes("key", 4))
+		}
+		t = vNewTransport(vEncodeFrame(p))
+		t.endMode = vEndBlock
+		t.writeBlock = true
+		vReach("C10.cancel.blocked-close-frame")
+	}
+	vClassify("call", []string{"reader", "write", "ping", "read-body", "streamed-write", "blocked-pong", "blocked-error-close-frame", "blocked-close-echo"}[which])
 	c := vNewConn(t, client, nil, 32, 64)
 	ctx, cancel := context.WithCancel(vBG)
 	byTimeout := vChoose("how", 2) == 1
@@ -169,7 +185,7 @@ func verifC10_cancel() {
 	start := vGhostElapsed()
 	var err error
 	switch which {
-	case 0, 5:
+	case 0, 5, 6, 7:
 		_, _, err = c.Reader(ctx)
 	case 1:
 		err = c.Write(ctx, MessageBinary, vBytes("w", 2))
